@@ -43,20 +43,13 @@ def _variants(body, want_model):
     }
 
 
-def _die_with_parent():
-    """solver children must never outlive the worker that started them (PR_SET_PDEATHSIG = SIGKILL)"""
-    try:
-        import ctypes
-        import signal
-        ctypes.CDLL("libc.so.6", use_errno=True).prctl(1, signal.SIGKILL)
-    except Exception:
-        pass
-
+# Solver children must never outlive the check: racing solvers get a hard z3 time limit (-T), the persistent one
+# exits on EOF of its stdin, and the runner kills a worker's whole process group (vf/runner.py).
 
 def _spawn(exe, text, hard_s=None):
     cmd = [exe, "-in"] + ([f"-T:{int(hard_s)}"] if hard_s else [])
     p = subprocess.Popen(cmd, stdin=subprocess.PIPE, stdout=subprocess.PIPE,
-                         stderr=subprocess.STDOUT, text=True, preexec_fn=_die_with_parent)
+                         stderr=subprocess.STDOUT, text=True)
     try:
         p.stdin.write(text)
         p.stdin.close()
@@ -89,7 +82,7 @@ class Persistent:
 
     def start(self):
         self.p = subprocess.Popen([self.exe, "-in"], stdin=subprocess.PIPE, stdout=subprocess.PIPE,
-                                  stderr=subprocess.STDOUT, preexec_fn=_die_with_parent)
+                                  stderr=subprocess.STDOUT)
         self.buf = b""
 
     def stop(self):
